@@ -56,6 +56,15 @@ func scriptDecide(script []scriptEntry) func(refsmtp.Step) refsmtp.Action {
 			return refsmtp.Action{Kind: refsmtp.Stall}
 		case "mute":
 			return refsmtp.Action{Kind: refsmtp.Mute}
+		case "alt-2yz":
+			// another positive reply code of the same class where the protocol has one (RCPT: 251 / 252)
+			if st.Verb == "RCPT" {
+				if st.Index%2 == 0 {
+					return refsmtp.Action{Kind: refsmtp.Reply, Code: 251, Text: "2.1.5 User not local; will forward"}
+				}
+				return refsmtp.Action{Kind: refsmtp.Reply, Code: 252, Text: "2.1.5 Cannot VRFY user, but will accept message and attempt delivery"}
+			}
+			return refsmtp.Action{}
 		case "queue-then-drop":
 			// (meaningful at end-of-data) the server queues the message, the connection dies before the 250 leaves
 			return refsmtp.Action{Kind: refsmtp.Drop, Code: 250}
